@@ -2686,11 +2686,16 @@ class TensorDict(TensorDictBase):
                 non_blocking=False,
             )
         else:
+            # The entry is valid where it is: it stays valid in the same nested tensordict or
+            # in one of its parents (their batch size is a prefix, their device is shared).
+            # Anywhere else it must be validated against the batch size / device of its new
+            # container like any other write.
+            new_parent = new_key[:-1]
             self._set_tuple(
                 new_key,
                 self.get(old_key, default=NO_DEFAULT),
                 inplace=False,
-                validated=True,
+                validated=old_key_tuple[: len(new_parent)] == new_parent,
                 non_blocking=False,
             )
         if not (
